@@ -336,7 +336,8 @@ def perturb_stream(ctx: Ctx, base: list[Case], n: int) -> None:
     for c in pool:
         if len(cases) >= n:
             break
-        r = G.perturb(c.prog, ctx.rng)
+        done = ctx.coverage.get("distribution", {}).get("perturbation", {})
+        r = G.perturb(c.prog, ctx.rng, prefer=min(G.PERTURBATIONS, key=lambda k: done.get(k, 0)))
         if r is None:
             continue
         q, kind = r
@@ -396,6 +397,14 @@ def known_programs() -> list[Case]:
         "class A:\n    def __init__(self) -> None:\n        pass\n"
         "class B(A):\n    def __init__(self, n: int) -> None:\n        self.n = n\n"
         "def make(c: type[A]) -> A:\n    return c()\ndef t() -> A:\n    return make(B)\n"), pycalls=["t()"]))
+    out.append(Case("kMI", None, [], "replay:F-C01-3-union-isinstance-multiple-inheritance", src=(
+        "from typing import Union\n"
+        "class A:\n    def __init__(self) -> None:\n        pass\n"
+        "class C:\n    def __init__(self) -> None:\n        pass\n"
+        "class C2(C):\n    def only_c2(self) -> int:\n        return 1\n"
+        "class AC(A, C):\n    pass\n"
+        "def f(x: Union[A, C2]) -> int:\n    if isinstance(x, C):\n        return x.only_c2()\n    return 0\n"
+        "def t() -> int:\n    return f(AC())\n"), pycalls=["t()"]))
     return out
 
 
@@ -478,14 +487,39 @@ def main(ctx: Ctx) -> None:
 
 
 def replay(ctx: Ctx, path: str) -> int:
+    """Re-run one recorded case on the current tree: mypy's verdict and probe types, CPython's behaviour, the
+    property's oracle, and (for model programs) `tc` / `eval` beside them.  Exit 1 if the oracle still fails
+    or the two sides still differ."""
     body = json.load(open(path))
     det = body["replay"].get("detail", body["replay"])
     src, calls = det["source"], det.get("calls", [])
     my = R.check_batch({"replay": src})["replay"]
-    print("mypy:", my["errors"] or "no errors")
+    print("mypy:", my["errors"] or "no errors", "| lines in blocks marked unreachable:", my["dead"])
     rr = R.run_batch([{"name": "replay", "src": src, "calls": calls, "dead": my["dead"]}], ctx.tmp)[0]
+    if rr["load"]:
+        print("module load:", rr["load"])
     for call, c in zip(calls, rr["calls"]):
-        print(call, "->", c["out"], c["msg"], "dead lines executed:" if c["dead_hit"] else "", c["dead_hit"] or "")
-    if "lean_term" in det:
-        print("model:", ctx.lean_driver("Driver/C01.lean", [det["lean_term"]])[0][:2000])
-    return 0
+        print(" ", call, "->", c["out"], c["msg"], ("unreachable lines executed: %s" % c["dead_hit"]) if c["dead_hit"] else "")
+    fails = oracle(ctx, "replay", src, my, rr, calls)
+    for f in fails[:10]:
+        print("PROPERTY FAILS:", json.dumps(f))
+    bad = bool(fails)
+    if det.get("lean_term"):
+        m = parse_model_line(ctx.lean_driver("Driver/C01.lean", [det["lean_term"]])[0])
+        print(f"model: wf={m['wf']} tc={m['tc']}")
+        accepted = not my["errors"]
+        tck = m["tc"].split(" ")[0]
+        if tck in ("ok", "type") and (tck == "ok") != accepted:
+            print("DIFFERENCE: verdict"); bad = True
+        if tck == "ok" and accepted:
+            real_tm = {k: R.canon_type(t) for k, t in my["probes"].items()}
+            for k in sorted(set(real_tm) | set(m["tm"])):
+                if real_tm.get(k) != m["tm"].get(k):
+                    print(f"DIFFERENCE: probe {k}: tc={m['tm'].get(k)} mypy={real_tm.get(k)}"); bad = True
+        for call, mc, rc in zip(calls, m["calls"], rr["calls"]):
+            ro, rlog = real_call_str(rc)
+            if "timeout" in (ro, mc["out"]):
+                continue
+            if ro != mc["out"] or rlog != mc["log"]:
+                print(f"DIFFERENCE: run {call}: eval={mc['out']} cpython={ro}"); bad = True
+    return 1 if bad else 0
